@@ -473,6 +473,43 @@ func handleScenario(wd *world, kind string) {
 		ev("op", "hclose", "res", res, "ms", ms, "ret", yn(ret))
 		res, ms, ret = timed(5*time.Second, func() string { return errs(h.Close()) })
 		ev("op", "hclose", "res", res, "ms", ms, "ret", yn(ret))
+	case "eof-is-final":
+		// the handle is closed locally and has reported end-of-stream; the peer keeps sending: end-of-stream stays
+		h.Close()
+		res, ms, ret := timed(5*time.Second, func() string { _, err := h.Read(make([]byte, 100)); return errs(err) })
+		ev("op", "read-after-close", "res", res, "ms", ms, "ret", yn(ret), "want", "eof")
+		for k := 0; k < 3; k++ {
+			c.WriteMsg([]byte(fmt.Sprintf("late-%d", k)))
+		}
+		time.Sleep(30 * time.Millisecond)
+		for k := 0; k < 2; k++ {
+			res, ms, ret = timed(5*time.Second, func() string {
+				h.SetReadDeadline(time.Now().Add(200 * time.Millisecond))
+				n, err := h.ReadMsg(make([]byte, 100))
+				if err == nil {
+					return fmt.Sprintf("data(%d bytes)", n)
+				}
+				return errs(err)
+			})
+			ev("op", "read-after-close", "res", res, "ms", ms, "ret", yn(ret), "want", "eof")
+		}
+	case "eof-is-final-client":
+		// the same on the client: closed locally, the server handle keeps sending
+		c.Close()
+		for k := 0; k < 3; k++ {
+			h.WriteMsg([]byte(fmt.Sprintf("late-%d", k)))
+		}
+		time.Sleep(30 * time.Millisecond)
+		for k := 0; k < 2; k++ {
+			res, ms, ret := timed(5*time.Second, func() string {
+				n, err := c.ReadMsg(make([]byte, 100))
+				if err == nil {
+					return fmt.Sprintf("data(%d bytes)", n)
+				}
+				return errs(err)
+			})
+			ev("op", "read-after-close", "res", res, "ms", ms, "ret", yn(ret), "want", "eof")
+		}
 	case "peer-close":
 		reader("read-blocked", "eof")
 		time.Sleep(5 * time.Millisecond)
@@ -482,7 +519,7 @@ func handleScenario(wd *world, kind string) {
 		h.Close()
 	}
 	wg.Wait()
-	if kind != "read+close" && kind != "writers+close" && kind != "peer-close" && kind != "deadline-then-close" {
+	if kind != "read+close" && kind != "writers+close" && kind != "peer-close" && kind != "deadline-then-close" && !strings.HasPrefix(kind, "eof-is-final") {
 		// the deadline expired; it can be moved again and the handle still works
 		h.SetReadDeadline(time.Time{})
 		c.WriteMsg([]byte("after"))
@@ -548,7 +585,7 @@ func main() {
 				}
 			}
 		}
-		for _, k := range []string{"read+close", "read+deadline-future", "read+deadline-past", "deadline-then-close", "writers+close", "peer-close"} {
+		for _, k := range []string{"read+close", "read+deadline-future", "read+deadline-past", "deadline-then-close", "writers+close", "peer-close", "eof-is-final", "eof-is-final-client"} {
 			w.Ev("scenario", "obj", "handle", "kind", k)
 			handleScenario(wd, k)
 			w.Flush()
